@@ -99,8 +99,8 @@ CLAIMS = {
                 'the whole language incl. for, functions inside blocks and every nesting shape to depth 3 is decided on the implementation against an independent '
                 'structured reference interpreter (result, log, final globals), and the Coq parser+interpreter model is run against the implementation.',
         'note': 'PARTIAL (named in Props/C01.v): for-loops are outside the proved fragment; the simulation is per scope; premises: unlimited budget, library monotone in '
-                'callback termination, expression evaluation does not read the statement counter (Ev_blind). compile = parser lowering is validated per case inside Coq, '
-                'not proved for all trees. Trusted: Coq kernel/vm_compute, transliterations validated by the correspondence, harness reference interpreter. No axioms.',
+                'callback termination, expression evaluation does not read the statement counter (Ev_blind). compile = the fold of the parser\'s pure lowering step over the tree\'s line kinds is PROVED '
+                '(C01_compile_is_the_parser_lowering, C01_parse_is_compile); that a printed text classifies to those kinds is decided per case inside Coq. Trusted: Coq kernel/vm_compute, transliterations validated by the correspondence, harness reference interpreter. No axioms.',
         'ref': 'DESIGN.md section 5 C01',
     },
 }
